@@ -8,6 +8,8 @@ Abstractions (see also c14.py): the sums are ghost quantities -
                                              Starter (the statement's quantity), see GetLoadRequests
 """
 from pyvc.spec import *
+
+GROUP = 'strategy'   # contracts of one group use each other's contracts at call sites (pyvc/hooks.py contract_for_call)
 from contracts.c14 import *
 
 
